@@ -26,7 +26,7 @@
 (***************************************************************************)
 EXTENDS Integers, Sequences, FiniteSets, TLC
 
-CONSTANT Mutant   \* "none" | "urlb64" | "lastcolon" | "queryfirst" | "defaultalways" | "nolower"
+CONSTANT Mutant   \* "none" | "formvalue" (the tree as found, D27) | "urlb64" | "lastcolon" | "queryfirst" | "defaultalways" | "nolower"
 
 COLON == 58
 ACCESS == <<97, 99, 99, 101, 115, 115, 95, 116, 111, 107, 101, 110>>    \* "access_token"
@@ -97,8 +97,15 @@ SrvAPIKeyToken(w, A) ==
 SrvBearerToken(w) ==
   LET hdr == IF w.authz.t = "bearer" THEN w.authz.p ELSE <<>>                 \* strings.HasPrefix(hdr, "Bearer ")
       q   == LET m == LastMatch(w.query, ACCESS, "exact") IN IF m = <<>> THEN <<>> ELSE m[1]
+      \* repaired (finding D27): r.PostFormValue - the body's value.  As found ("formvalue"): r.FormValue
+      \* = first of r.Form, which lists the body's values before the query's for urlencoded bodies
+      \* but AFTER them for multipart bodies, so an empty access_token query parameter hides the form token.
       f   == IF w.media \in {"urlencoded", "multipart"}
-             THEN (LET m == LastMatch(w.form, ACCESS, "exact") IN IF m = <<>> THEN <<>> ELSE m[1]) ELSE <<>>
+             THEN (LET m  == LastMatch(w.form, ACCESS, "exact")
+                       qm == LastMatch(w.query, ACCESS, "exact")
+                       vs == IF Mutant = "formvalue" /\ w.media = "multipart" THEN qm \o m ELSE m \o qm
+                   IN IF vs = <<>> THEN <<>> ELSE vs[1])
+             ELSE <<>>
   IN IF Mutant = "queryfirst" THEN (IF q # <<>> THEN q ELSE IF hdr # <<>> THEN hdr ELSE f)
      ELSE IF hdr # <<>> THEN hdr ELSE IF q # <<>> THEN q ELSE f
 
